@@ -33,7 +33,7 @@ theorem lib_denies_unsafe :
 
 /-- no attribute that needs `unsafe` semantics and no foreign block in portable files -/
 theorem no_unsafe_attr_or_extern :
-    (facts.all fun f => !(inP f && (f.kind == "unsafe_attr" || f.kind == "extern_block" || f.kind == "ptr"))) = true := by
+    (facts.all fun f => !(inP f && (f.kind == "unsafe_attr" || f.kind == "extern_block" || (f.kind == "ptr" && !f.test)))) = true := by
   decide +kernel
 
 /-- module closure, computed on the module graph of the current tree: every source file reachable from the
